@@ -29,7 +29,9 @@ ASSUMPTIONS = [
 
 FORMATS = ["bif", "xmlbif", "uai", "net"]
 WORDS = ["rain", "x1", "Node_2", "grade", "zeta", "b", "Alpha", "q9", "vv", "w3"]
-KW = ["variable_a", "myprobability", "network1", "tableX", "default_", "property2", "type", "node", "potentials", "data", "states", "net", "probability_of", "avariable"]
+KW = ["variable_a", "myprobability", "network1", "tableX", "default_", "property2", "type", "node", "potentials", "data", "states", "net", "probability_of", "avariable",
+      "timetable", "use_default", "subtype", "anode", "mydata", "botnet", "is_table", "x_default"]
+KW_STATES = ["stable", "unstable", "adefault", "xtable", "default1", "table2", "mytype", "nodes"]
 
 
 @st.composite
@@ -43,8 +45,13 @@ def rw_case(draw, big=False):
     else:
         spec = draw(gen.bn_spec(min_nodes=1, max_nodes=6, name_kinds=(nk,), state_kinds=("str", "str", "range", "offset", "perm"), max_parents=4, col_kinds=("dense", "dense", "zeros", "onehot", "uniform", "tiny", "tiny")))
     spec["name_kind"] = kind
+    if kind == "kw" and draw(st.booleans()):
+        # state names that contain / end with format keywords as well
+        spec["states"] = [[KW_STATES[(i + j) % len(KW_STATES)] for j in range(k)] for i, k in enumerate(spec["card"])]
+        spec["explicit_states"] = True
+        spec["kw_states"] = True
     # state names become identifier-like strings: 's0'.. or digit strings
-    fmt = draw(st.sampled_from(["bif", "xmlbif", "xmlbif", "uai", "uai", "net", "net"]))  # BIFReader builds its grammar in ~1.5 s
+    fmt = draw(st.sampled_from(["bif", "bif", "xmlbif", "xmlbif", "uai", "uai", "net", "net"]))  # BIFReader builds its grammar in ~1.5 s
     via = draw(st.sampled_from(["string", "string", "file", "save_load"]))
     return {"spec": spec, "format": fmt, "via": via}
 
@@ -127,6 +134,8 @@ def check_rw(case, out, n_jobs=1):
     nodes = [str(v) for v in spec["nodes"]]
     idx = {v: i for i, v in enumerate(spec["nodes"])}
     out.cls(f"fmt_{fmt}", f"via_{via}", f"names_{spec['name_kind']}")
+    if spec.get("kw_states"):
+        out.cls("keyword_state_names")
     par = {c["var"]: c["parents"] for c in spec["cpds"]}
     tiny = any(0 < x < 1e-4 for c in spec["cpds"] for row in c["table"] for x in row)
     multi = any(len(p) >= 2 and len({spec["card"][idx[q]] for q in p}) > 1 for p in par.values())
@@ -319,7 +328,7 @@ SUBCHECKS = [
 ]
 def _node_named_node(case):
     spec = case["spec"]
-    return any("node" in c["parents"] and len(c["parents"]) >= 2 for c in spec["cpds"])
+    return any(any(str(p).endswith("node") for p in c["parents"]) and len(c["parents"]) >= 2 for c in spec["cpds"])
 
 
 PREDICATES = {"node_named_node_among_several_parents": _node_named_node}
